@@ -188,11 +188,16 @@ def native(ctx, src):
         r0 = ctx.S.oracle.gen(s_, base)
         if 'ok' not in r0:
             continue              # not an input the generator accepts at all
-        for v in (True, 3, 0):
+        for v in (True, 3, 0, 1, 1 << 20):
             r1 = ctx.S.oracle.gen(s_, dict(base, validate=v))
             det['checked'] += 1
+            # the real validator with exactly the caller's capability set is the reference for accept / reject
+            ref = ctx.S.oracle.dump(s_, caps=(0xffffffff if v is True else v)).get('valid_caps')
+            if ref is not None and ('ok' in r1) != ref:
+                if det['first'] is None:
+                    det['first'] = {'wgsl': s_, 'options': {'validate': v}, 'real': f'generation {"succeeds" if "ok" in r1 else "fails"} although naga\'s validator with these capabilities {"accepts" if ref else "rejects"} the module'}
             # a capability-restricted validator may reject; an accepting one must not change the text
-            if 'ok' in r0 and 'ok' in r1 and r0['ok'] != r1['ok']:
+            elif 'ok' in r0 and 'ok' in r1 and r0['ok'] != r1['ok']:
                 if det['first'] is None:
                     det['first'] = {'wgsl': s_, 'options': {'validate': v}, 'real': 'output differs between validation off and on'}
             elif 'panic' in r1 or 'panic' in r0:
